@@ -404,6 +404,7 @@ func (c *VCtx) makeMap(st *State, t types.Type) Val {
 	mt := t.Underlying().(*types.Map)
 	r := c.freshRef(st, "map")
 	r.GT = t
+	c.allFresh = append(c.allFresh, r)
 	dn, _, cn := mapHeapNames(mt)
 	ks := sortOf(mt.Key())
 	dom := c.heap(st, dn, ArrSort(SRef, ArrSort(ks, SBool)))
@@ -478,6 +479,7 @@ func (c *VCtx) rangeInit(fr *Frame, st *State, x *ssa.Range) Val {
 		iterTable[c] = map[ssa.Value]*mapIter{}
 	}
 	iterTable[c][x] = &mapIter{m: m, mt: mt}
+	fr.lastIter = it
 	return it
 }
 
